@@ -338,10 +338,22 @@ def _decorate_namespace_property(
 
 def _is_defined_in_bases(bases: List[type], value: Any) -> bool:
     """Check whether the ``value`` is the very object defined in one of the ``bases`` or in their ancestors."""
+    # ``some_func = SomeBase.some_func`` gives the underlying function of a static method, which may be wrapped
+    # again in the derived class (``some_func = staticmethod(SomeBase.some_func)``). Hence we also need to compare
+    # the functions wrapped by the static and class methods.
+    func = value.__func__ if isinstance(value, (staticmethod, classmethod)) else value
+
     for base in bases:
         for cls in inspect.getmro(base):
-            if any(a_value is value for a_value in vars(cls).values()):
-                return True
+            for a_value in vars(cls).values():
+                if a_value is value or a_value is func:
+                    return True
+
+                if (
+                    isinstance(a_value, (staticmethod, classmethod))
+                    and a_value.__func__ is func
+                ):
+                    return True
 
     return False
 
